@@ -474,6 +474,20 @@ def run(ck):
             for e, p in decompose(n.test.ast, n.polarity)) or
         any(canon_fact(e, p) == (("(error := self._error) is None"), True)
             for e, p in decompose(n.test.ast, n.polarity)))]
+    # an alias counts as well: `<name> is None` where <name> was read from self._error after the wait
+    rdw = ck.rdefs(wi.fid, 'M1')
+    for n in gw.nodes:
+        if n.kind != 'branch' or n in okstate:
+            continue
+        for e, pol in decompose(n.test.ast, n.polarity):
+            t, cp = canon_fact(e, pol)
+            if cp and t.endswith(' is None') and t[:-8].isidentifier():
+                nm = t[:-8]
+                vals = rdw.value_exprs(n.test, nm)
+                defs = rdw.defs_at(n.test, nm)
+                if vals and all(not isinstance(v, str) and norm(v) == 'self._error' for v in vals) and \
+                        all(gw.dominates(waits[0], d) for d in defs):
+                    okstate.append(n)
     p = gw.path_avoiding(waits[0], [gw.exit], avoid=okstate, start_successors_only=True)
     ck.ob(R7, f"{wi.fid} :: error state tested", p is None,
           "a normal return is possible only when the simulator's error slot is empty (the "
